@@ -115,6 +115,42 @@ def _calendar(cin, variant):
     return {"in2": in2, "out": out}
 
 
+def _dailyreads(cin, variant):
+    """one reading a day at local midnight; the first day is a plain day or the zone's 23- / 25-hour day"""
+    em = _st["em"]
+    form, zone = split_variant(variant)
+    first = {"plain": 1440, "short": 1380, "long": 1500}[cin["first"]]
+    n = cin["n"]
+    days = pd.date_range(pd.Timestamp(ZONE_DAYS[zone][first]), periods=n, freq="D").tz_localize(zone)
+    vals = np.array([np.nan if (i + 1) in cin["missing"] else float(val(i + 1)) for i in range(n)])
+    meter = pd.Series(vals, index=days, name="observed")
+    temp = pd.Series(50.0 + (np.arange(n) % 20), index=days, name="temperature")
+    out = {"res": "ok", "days": []}
+    try:
+        if form == "series":
+            obj = em.DailyBaselineData.from_series(meter, temp, is_electricity_data=False)
+        elif form == "series-hfeed":
+            hidx = pd.date_range(days[0], days[-1] + pd.Timedelta(hours=23), freq="h")
+            obj = em.DailyBaselineData.from_series(meter, pd.Series(55.0 + (hidx.hour.to_numpy() % 12), index=hidx, name="temperature"), is_electricity_data=False)
+        else:
+            obj = em.DailyBaselineData(pd.DataFrame({"observed": meter, "temperature": temp}), is_electricity_data=False)
+        df = obj.df
+    except Exception as ex:
+        out["res"] = type(ex).__name__
+        out["err"] = str(ex)[:200]
+        return out
+    for i in range(n - 1):
+        row = df[df.index.date == days[i].date()]
+        rec = {"has": False, "n": 0, "d": 1, "ok": False}
+        if len(row) == 1 and "observed" in df.columns and np.isfinite(row["observed"].iloc[0]):
+            rec["has"] = True
+            rec["n"], rec["d"], rec["ok"] = snap(float(row["observed"].iloc[0]))
+        elif len(row) > 1:
+            rec["has"], rec["ok"] = True, False
+        out["days"].append(rec)
+    return out
+
+
 # zone -> dates of a plain day, the 23-hour day and the 25-hour day of 2019 (whole-hour clock changes)
 ZONE_DAYS = {
     "America/Chicago":  {1440: "2019-05-15", 1380: "2019-03-10", 1500: "2019-11-03"},
@@ -169,7 +205,7 @@ def _subdaily(cin, variant):
     obs = np.full(len(idx), 5.0)
     pos = np.where(on)[0]
     if len(pos) != cin["total"]:
-        return {"res": "BadRealisation", "err": "%d readings on the day, expected %d" % (len(pos), cin["total"]), "has": False, "n": 0, "d": 1, "ok": False}
+        return {"res": "BadRealisation", "err": "%d readings on the day, expected %d" % (len(pos), cin["total"]), "has": False, "n": 0, "d": 1, "ok": False, "nrows": 1}
     for i, p in enumerate(pos, start=1):
         obs[p] = np.nan if i in cin["missing"] else float(val(i))
     if variant.startswith("absent-rows"):
@@ -180,7 +216,7 @@ def _subdaily(cin, variant):
     frame = pd.DataFrame({"temperature": 55.0 + (hr % 12), "observed": obs}, index=idx)[keep]
     if variant.endswith("-from7"):          # the meter's first reading is at 07:00 of the first day, not at local midnight
         frame = frame[frame.index >= frame.index[0] + pd.Timedelta(hours=7)]
-    out = {"res": "ok", "has": False, "n": 0, "d": 1, "ok": False}
+    out = {"res": "ok", "has": False, "n": 0, "d": 1, "ok": False, "nrows": 1}
     try:
         if twin:
             em.DailyBaselineData(frame.tz_convert(TWINS[zone]), is_electricity_data=False)
@@ -191,6 +227,7 @@ def _subdaily(cin, variant):
         out["err"] = str(ex)[:200]
         return out
     row = df[df.index.date == pd.Timestamp(date).date()]
+    out["nrows"] = int(len(row))
     if len(row) == 1 and "observed" in df.columns and np.isfinite(row["observed"].iloc[0]):
         out["has"] = True
         out["n"], out["d"], out["ok"] = snap(float(row["observed"].iloc[0]))
@@ -271,14 +308,14 @@ def _temp(cin, variant):
 
 def realise(cin, variant):
     try:
-        return {"billing": _billing, "calendar": _calendar, "subdaily": _subdaily, "temp": _temp}[cin["kind"]](cin, variant)
+        return {"billing": _billing, "calendar": _calendar, "dailyreads": _dailyreads, "subdaily": _subdaily, "temp": _temp}[cin["kind"]](cin, variant)
     except Exception as ex:
         import traceback
-        return {"res": "DriverError:" + type(ex).__name__, "err": (str(ex) + traceback.format_exc())[-300:], "periods": [], "has": False, "n": 0, "d": 1, "ok": False, "notnull": -1, "null": -1}
+        return {"res": "DriverError:" + type(ex).__name__, "err": (str(ex) + traceback.format_exc())[-300:], "periods": [], "days": [], "nrows": 1, "has": False, "n": 0, "d": 1, "ok": False, "notnull": -1, "null": -1}
 
 
 def nontrivial(cin, out):
-    return cin["kind"] in ("billing", "calendar") or len(cin["missing"]) > 0
+    return cin["kind"] in ("billing", "calendar", "dailyreads") or len(cin["missing"]) > 0
 
 
 def corruptions(cin, out):
@@ -295,6 +332,10 @@ def corruptions(cin, out):
             if not p["present"]:
                 o = copy.deepcopy(out); o["periods"][k]["present"] = True; yield "notDropped", o
                 break
+    elif cin["kind"] == "dailyreads":
+        if out["days"] and out["days"][0]["has"]:
+            o = copy.deepcopy(out); o["days"][0]["n"] += o["days"][0]["d"]; yield "dayValue", o
+            o = copy.deepcopy(out); o["days"][0]["has"] = False; yield "dayMissing", o
     else:
         if out["has"]:
             o = copy.deepcopy(out); o["n"] += o["d"]; yield "value", o
